@@ -101,8 +101,9 @@ def dispatch_trace(tid, trn, invn, rng):
     G = lambda x: x * 4
     table = {"None": None, "log": "log", "exp": "exp", "F": F, "G": G, "bad": 3}
     fun = {"id": lambda x: x, "log": numpy.log, "exp": numpy.exp, "F": F, "G": G}
-    y = numpy.array([0.5, 1.0, 2.0, 4.0, 1.5, 0.25]) * rng.choice([1, 2])
-    p = numpy.array([1.0, 0.5, 2.0, 3.0, 1.25, 0.5])
+    # positive targets over the whole range of magnitudes (2^-50 .. 2^6)
+    y = numpy.array([0.5, 1.0, 2.0, 4.0, 1.5, 2.0 ** -50]) * rng.choice([1, 2])
+    p = numpy.array([1.0, 2.0 ** -40, 2.0, 3.0, 64.0, 0.5])
     got = {}
 
     def metric(a, b, **kw):
